@@ -190,6 +190,21 @@ theorem history_refines (L : Lawful C) (S : Sep C pws) (reserved : List Bytes) (
 /-- a start exists: the all-zero .PASSWDS represents the empty table, for every hash and every universe. -/
 theorem empty_represents (C : Crypto) (pws : List Bytes) : R C pws (emptyState C) emptyTable := R_empty C pws
 
+/-! #### concurrent requests
+
+What is PROVED about concurrency is the read-only class: password checks and lookups change nothing, so in EVERY
+schedule of such requests (any order, any interleaving of whole requests, also several against one account) each one
+gets the answer it gets alone in the state they started from.  For requests that write (login, password change) the
+model states that groups addressing DIFFERENT accounts answer as if run one group after the other (`register_frame`
+/ `own_record_fields`: each touches only its own record); that commutation is not proved as a theorem — it is
+judged on every run by the `conc` histories (K against the sequential model, P-hat per account).  The computation
+of a hash is atomic in the model; an implementation that shares the result buffer of crypt between goroutines breaks
+exactly that and is caught there. -/
+
+theorem concurrent_checks_schedule_free (reserved : List Bytes) (s : State C) (ops : List Op) (h : ∀ o ∈ ops, Pure o) :
+    run reserved s ops = s ∧ outputs reserved s ops = ops.map (fun o => (step reserved s o).2) :=
+  pure_run reserved s ops h
+
 /-! #### frame -/
 
 /-- EVERY operation in EVERY state (no invariant needed): every record except the one of the target uid — the first
